@@ -276,8 +276,10 @@ PROPS = {
     ),
     "C09": dict(
         proof_modules=["KsVerif.Proofs.C09"],
-        families=["sched.match.redis", "sched.match.http", "sched.match.http10", "sched.match.amqp", "sched.match.kafka", "sched.excl"],
-        rule="sched.excl: with one half parked AT a yield point inside the matcher's locked region, the other half must block "
+        families=["sched.match.redis", "sched.match.http", "sched.match.http10", "sched.match.amqp", "sched.match.kafka", "sched.excl", "http2.conv"],
+        rule="http2.conv: pairing by stream id on interleaved HTTP/2 streams with control frames (incl. a graceful GOAWAY) between the "
+             "frames of a stream - one item per completed stream, nothing left in the matcher (see C04); "
+             "sched.excl: with one half parked AT a yield point inside the matcher's locked region, the other half must block "
              "(that the lock excludes is observed on the running code, not read off the lock statements); "
              "every schedule of the two halves of a connection at the yield points (each register is one step "
              "under the matcher mutex), i.e. every order-preserving merge of the two message sequences, exhaustively "
